@@ -47,7 +47,7 @@ class Target:
         r = k in self.faults.get(tid, ())
         self.log.append([tid, 'call', c, r])
         if r:
-            raise S.Injected('injected fault')
+            raise S.injected(tid, k)
 
     def startTestRun(self): self._call('startTestRun')
     def stopTestRun(self): self._call('stopTestRun')
@@ -134,7 +134,7 @@ class C12(Prop):
     assumptions = ['threading.Semaphore(1) semantics are modelled (harness/sched.py double), not verified',
                    'only operations on the shared semaphore and target are scheduling points: each forwarder is confined to its thread, as the property assumes; CPython pre-emption inside real.py is not explored',
                    'the target has no failfast attribute (the extra stop() of ExtendedToOriginalDecorator under failfast belongs to C04)',
-                   'a fault is an exception raised by the target call; faults are addressed per thread (k-th call of thread i), so a plan is schedule-independent',
+                   'a fault is an exception raised by the target call - an Exception subclass or, depending on the position, a BaseException that is not an Exception (as KeyboardInterrupt is); faults are addressed per thread (k-th call of thread i), so a plan is schedule-independent',
                    'ThreadsafeForwardingResult.wasSuccessful() forwards to the target without the semaphore; it is a query outside the statement and is not generated']
 
     manifest = {
@@ -175,7 +175,7 @@ class C12(Prop):
                     try:
                         apply_op(r, op, tests)
                         exc[i].append(False)
-                    except S.Injected:
+                    except S.INJECTED:
                         exc[i].append(True)
             return f
         for i, t in enumerate(threads):
